@@ -55,10 +55,11 @@ def _ov(extra):
     return d
 
 
-_KF = {1: "C19-F1", 2: "C19-F2", 3: "C19-F3", 4: "C19-F4", 5: "C19-F5", 6: "C19-F6", 7: "C19-F7", 8: "C19-F8"}
+_KF = {1: "C19-F1", 2: "C19-F2", 3: "C19-F3", 4: "C19-F4", 5: "C19-F5", 6: "C19-F6", 7: "C19-F7", 8: "C19-F8", 9: "C19-F9"}
 _KS = _ov({"internal/zzverif/c19gen/ks_test.go": "c19/gen/ks_test.go", "internal/zzverif/c19gen/req_test.go": "c19/gen/req_test.go",
            "internal/zzverif/c19gen/remote_test.go": "c19/gen/remote_test.go",
-           "internal/zzverif/c19gen/watch_test.go": "c19/gen/watch_test.go"})
+           "internal/zzverif/c19gen/watch_test.go": "c19/gen/watch_test.go",
+           "internal/zzverif/c19gen/scopes_test.go": "c19/gen/scopes_test.go"})
 
 P = {
     "id": "C19",
